@@ -516,6 +516,13 @@ func (ci *concr) runB(fn *ssa.Function, args []cval, bindings []cval, depth int)
 				switch {
 				case toSlice && v.kind == cConst && v.c.Kind() == constant.String:
 					env[x] = sliceOfBytes(constant.StringVal(v.c))
+				case isStringType(x.Type()) && v.kind == cConst && v.c.Kind() == constant.Int && isIntType(x.X.Type()):
+					// string(r): the UTF-8 encoding of the code point
+					if i, ok := constant.Int64Val(v.c); ok {
+						env[x] = cval{kind: cConst, c: constant.MakeString(string(rune(i)))}
+					} else {
+						env[x] = cval{}
+					}
 				case isStringType(x.Type()) && (v.kind == cSlice || v.kind == cNilPtr):
 					if sv, ok := bytesOf(v); ok {
 						env[x] = cval{kind: cConst, c: constant.MakeString(sv)}
